@@ -333,11 +333,30 @@ def r5_generators_profiles(ctx):
               "the duplicate check is registered as field validator of `candidates`", str(decos), "cands_must_be_unique is no longer a field validator of candidates")
 
 
+def r6_limits_reach_validation(ctx):
+    """The limit checks of rows 23-26 live in GeneralRating.__init__; a request made through Rating / Limited / Cumulative /
+    Approval / BlocPlurality is rejected only if the subclass hands the user's L, k and m on as they are (a default filled
+    in with `k or m` turns the invalid k = 0 into a valid request).  Decided by C05.R5 (subclass parameter table)."""
+    from rules import c05
+    sub = type(ctx)(ctx.prog, ctx.prop, ctx.tier)
+    fn = [r for r in c05.RULES if r[0] == "C05.R5"][0][1]
+    fn(sub)
+    n = 0
+    for o in sub.obs:
+        if "->" in o.construct or "only when" in o.construct or "unmodified constructor parameter" in o.construct:
+            o.rule = "C20.R6"
+            ctx.obs.append(o)
+            n += 1
+    if n < 8:
+        ctx.vanished(f"subclass parameter obligations: only {n}")
+
+
 RULES = [
     ("C20.R1", r1_ballot_data, 16, "rows 1-8, 12: ballots lacking the data a rule needs are rejected with TypeError, every ballot, before running"),
     ("C20.R2", r2_score_limits, 6, "rows 9-11: per-candidate limit, non-negativity and budget are enforced for every ballot"),
     ("C20.R3", r3_seat_range, 10, "rows 13-21: seat ranges and Alaska stage sizes are rejected with ValueError before running"),
     ("C20.R4", r4_vectors_limits_quota, 9, "rows 22-28: score vectors, rating limits, Limited budget, unknown quota"),
+    ("C20.R6", r6_limits_reach_validation, 8, "prerequisite: rating subclasses hand the user's limits and seats to the validating constructor unmodified (C05.R5)"),
     ("C20.R5", r5_generators_profiles, 14, "rows 29-37: generator bloc parameters, interval overlap, duplicate candidates"),
 ]
 
